@@ -305,6 +305,20 @@ fn memsto_alphabet() -> Vec<Vec<u8>> {
         t.push(op::SLOAD);
         v.push(t);
     }
+    // the same slot 1 named by a computed key (0 + 1): store, and load
+    let computed_key = || {
+        let mut t = pb(U::ZERO);
+        t.extend(pb(U::ONE));
+        t.push(op::ADD);
+        t
+    };
+    let mut t = pb(U::from_u64(3));
+    t.extend(computed_key());
+    t.push(op::SSTORE);
+    v.push(t);
+    let mut t = computed_key();
+    t.push(op::SLOAD);
+    v.push(t);
     v
 }
 
@@ -434,7 +448,17 @@ fn run_code(ctx: &mut Ctx, family: &str, code: &[u8]) -> bool {
             false
         }
         Err(v) => {
-            ctx.violation(v.key, format!("{} [{}]", v.what, hex(code)), json!({"bytes": hex(code)}));
+            // slot 1 named by a computed key (0 + 1): whether the same slot is also named by the literal 1 decides which
+            // defect this is (the recorded one needs both spellings in one program)
+            let computed = code.windows(5).any(|w| w == [0x5f, 0x60, 0x01, 0x01, 0x55] || w == [0x5f, 0x60, 0x01, 0x01, 0x54]);
+            let literal = code.windows(3).enumerate().any(|(i, w)| (w == [0x60, 0x01, 0x55] || w == [0x60, 0x01, 0x54]) && (i == 0 || code[i - 1] != 0x5f));
+            let facet = v.key.split(':').next().unwrap_or("").to_string();
+            let key = if computed && family == "memory_storage" {
+                format!("computed-storage-key:{}:{facet}", if literal { "mixed-with-the-literal-key" } else { "on-its-own" })
+            } else {
+                v.key
+            };
+            ctx.violation(key, format!("{} [{}]", v.what, hex(code)), json!({"bytes": hex(code)}));
             true
         }
     }
@@ -565,7 +589,7 @@ impl Check for C07 {
                 "all-constant, stack-safe, loop-free programs: every ALU operator x B x B (|B| = {}; ADDMOD/MULMOD x 5 moduli); \
                  DUPn/SWAPn for n = 1..16 over stacks of depth n..17; every PUSH width 0..32 x 4 immediates; all straight-line \
                  sequences <= {} over 8 constants + 25 ALU opcodes + POP/DUP1/SWAP1/PC/CODESIZE (prefix-pruned on stack safety); all \
-                 sequences <= {} over aligned MSTORE/MLOAD and literal-key SSTORE/SLOAD tokens; all branching programs <= {} tokens \
+                 sequences <= {} over aligned MSTORE/MLOAD and SSTORE/SLOAD tokens with literal keys and with a computed key (0 + 1) for slot 1; all branching programs <= {} tokens \
                  over constant-condition JUMPI to 3 labels, stores, pushes, pops; 36 programs of boundary lengths (255..257, 24 575..24 577, 30 000, 49 152, 65 535..65 537, 70 000 bytes) that read CODESIZE and PC at either end and on both sides of a branch. The reference EVM enumerates all forced-branch \
                  paths; the tool's stored final states are evaluated by an independent evaluator and the multiset of (stack, memory \
                  words, per-key ordered write list) must equal the multiset of reference paths. states = distinct validated \
